@@ -130,4 +130,514 @@ theorem filter_eq_self_of_length {α : Type} (p : α → Bool) (l : List α)
       simp at h
       omega
 
+-- ---------------------------------------------------------------- diffMap --
+
+/-- a strict total order given as a boolean `lt` -/
+structure StrictTotal {κ : Type} (lt : κ → κ → Bool) : Prop where
+  irrefl : ∀ a, lt a a = false
+  trans : ∀ a b c, lt a b = true → lt b c = true → lt a c = true
+  tri : ∀ a b, lt a b = false → lt b a = false → a = b
+
+/-- strictly ascending keys (what iterating a `BTreeMap` yields) -/
+def KeysSorted {κ ν : Type} (lt : κ → κ → Bool) (l : List (κ × ν)) : Prop :=
+  l.Pairwise (fun x y => lt x.1 y.1 = true)
+
+/-- what `diff_map` is supposed to report for key `k` -/
+def DiffSpec {κ ν : Type} (a b : List (κ × ν)) (k : κ) (r : DiffRes) : Prop :=
+  (r = .removed ∧ (∃ v, (k, v) ∈ a) ∧ ∀ v, (k, v) ∉ b) ∨
+  (r = .added ∧ (∃ v, (k, v) ∈ b) ∧ ∀ v, (k, v) ∉ a) ∨
+  (r = .changed ∧ ∃ v v', (k, v) ∈ a ∧ (k, v') ∈ b ∧ v ≠ v')
+
+theorem mem_diffMapAux {κ ν : Type} [DecidableEq ν] (lt : κ → κ → Bool) (h : StrictTotal lt)
+    (n : Nat) (a b : List (κ × ν)) (hn : a.length + b.length ≤ n)
+    (ha : KeysSorted lt a) (hb : KeysSorted lt b) (k : κ) (r : DiffRes) :
+    (k, r) ∈ diffMapAux lt n a b ↔ DiffSpec a b k r := by
+  have nomem : ∀ (l : List (κ × ν)) (k1 : κ), (∀ a' ∈ l, lt k1 a'.1 = true) → ∀ v, (k1, v) ∉ l := by
+    intro l k1 hl v hm
+    have := hl _ hm
+    simp [h.irrefl] at this
+  have nomem2 : ∀ (l : List (κ × ν)) (k1 k2 : κ), lt k1 k2 = true →
+      (∀ a' ∈ l, lt k2 a'.1 = true) → ∀ v, (k1, v) ∉ l := by
+    intro l k1 k2 h12 hl v hm
+    have h1 := hl _ hm
+    have := h.trans _ _ _ h12 h1
+    simp [h.irrefl] at this
+  fun_induction diffMapAux lt n a b <;>
+    simp only [KeysSorted, List.pairwise_cons, DiffSpec, List.length_cons, List.length_nil] at *
+  all_goals try (grind [StrictTotal])
+  next n k1 v1 ms k2 v2 os h1 h2 hv ih =>
+    have e : k1 = k2 := h.tri _ _ (by simpa using h1) (by simpa using h2)
+    subst e
+    have n1 := nomem ms k1 ha.1
+    have n2 := nomem os k1 hb.1
+    have ihh := ih (by omega) ha.2 hb.2
+    rw [List.mem_cons]
+    constructor
+    · rintro (e | hrec0)
+      · injection e with ek er; subst ek; subst er
+        exact Or.inr (Or.inr ⟨rfl, v1, v2, by simp, by simp, hv⟩)
+      · have hrec := ihh.mp hrec0
+        grind
+    · intro hs
+      by_cases e : k = k1
+      · subst e
+        left
+        rcases hs with ⟨_, ⟨v, hv1⟩, hn⟩ | ⟨_, ⟨v, hv1⟩, hn⟩ | ⟨hr, _⟩
+        · exact absurd (by simp) (hn v2)
+        · exact absurd (by simp) (hn v1)
+        · rw [hr]
+      · right; apply ihh.mpr; grind
+
+theorem diffMapAux_self {κ ν : Type} [DecidableEq ν] (lt : κ → κ → Bool)
+    (hirr : ∀ a, lt a a = false) (n : Nat) (a : List (κ × ν)) : diffMapAux lt n a a = [] := by
+  induction n generalizing a with
+  | zero => rfl
+  | succ n ih =>
+    cases a with
+    | nil => rfl
+    | cons x t => obtain ⟨k, v⟩ := x; simp [diffMapAux, hirr, ih]
+
+theorem strictTotal_nat : StrictTotal (fun (x y : Nat) => decide (x < y)) :=
+  ⟨by intro a; simp, by intro a b c; simp; omega, by intro a b; simp; omega⟩
+
+theorem strictTotal_ltPair : StrictTotal ltPair := by
+  refine ⟨?_, ?_, ?_⟩
+  · intro a; simp [ltPair]
+  · intro a b c; simp only [ltPair, Bool.or_eq_true, Bool.and_eq_true, decide_eq_true_eq, beq_iff_eq]; omega
+  · intro a b
+    obtain ⟨a1, a2⟩ := a; obtain ⟨b1, b2⟩ := b
+    simp only [ltPair, Bool.or_eq_false_iff, Bool.and_eq_false_iff, decide_eq_false_iff_not, beq_eq_false_iff_ne,
+      ne_eq, Prod.mk.injEq]
+    omega
+
+theorem filter_not_contains_self {α : Type} [DecidableEq α] (l : List α) :
+    l.filter (fun k => !l.contains k) = [] := by
+  apply List.filter_eq_nil_iff.mpr
+  intro a ha
+  simp [ha]
+
+theorem flatMap_nil_of {α β : Type} (l : List α) (f : α → List β) (h : ∀ a ∈ l, f a = []) :
+    l.flatMap f = [] := by
+  induction l with
+  | nil => rfl
+  | cons a t ih => simp [List.flatMap_cons, h a (by simp), ih (fun x hx => h x (by simp [hx]))]
+
+
+-- ------------------------------------------- replay seen entry by entry --
+
+/-- what a command list does to entry `t`, seen from `t` alone: the entry's value and whether
+    every command addressed to `t` returned `Ok` -/
+def foldTO (env : Env) (t : Target) (p : Option Val × Bool) (cs : List Cmd) : Option Val × Bool :=
+  cs.foldl (fun p c => if tgt c = some t then ((loc env c p.1).1, p.2 && (loc env c p.1).2) else p) p
+
+theorem foldTO_cons (env : Env) (t : Target) (p : Option Val × Bool) (c : Cmd) (cs : List Cmd) :
+    foldTO env t p (c :: cs) =
+      foldTO env t (if tgt c = some t then ((loc env c p.1).1, p.2 && (loc env c p.1).2) else p) cs := rfl
+
+theorem foldTO_nil (env : Env) (t : Target) (p : Option Val × Bool) : foldTO env t p [] = p := rfl
+
+theorem foldTO_append (env : Env) (t : Target) (p : Option Val × Bool) (a b : List Cmd) :
+    foldTO env t p (a ++ b) = foldTO env t (foldTO env t p a) b := by
+  simp [foldTO, List.foldl_append]
+
+theorem foldTO_skip (env : Env) (t : Target) (p : Option Val × Bool) (cs : List Cmd)
+    (h : ∀ c ∈ cs, tgt c ≠ some t) : foldTO env t p cs = p := by
+  induction cs generalizing p with
+  | nil => rfl
+  | cons c cs ih =>
+    have hc : tgt c ≠ some t := h c (by simp)
+    simp only [foldTO_cons, hc, if_false]
+    exact ih p (fun c' hc' => h c' (by simp [hc']))
+
+theorem foldTO_flatMap_skip {α : Type} (env : Env) (t : Target) (p : Option Val × Bool) (l : List α)
+    (f : α → List Cmd) (h : ∀ a ∈ l, ∀ c ∈ f a, tgt c ≠ some t) :
+    foldTO env t p (l.flatMap f) = p := by
+  apply foldTO_skip
+  intro c hc
+  rcases List.mem_flatMap.mp hc with ⟨a, ha, hca⟩
+  exact h a ha c hca
+
+theorem foldTO_fst (env : Env) (t : Target) (cs : List Cmd) (v : Option Val) (b : Bool) :
+    (foldTO env t (v, b) cs).1 = foldT env t v cs := by
+  induction cs generalizing v b with
+  | nil => rfl
+  | cons c cs ih =>
+    simp only [foldTO_cons, foldT, List.foldl_cons] at ih ⊢
+    by_cases h : tgt c = some t <;> simp [h, ih]
+
+theorem foldTO_false (env : Env) (t : Target) (cs : List Cmd) (v : Option Val) :
+    (foldTO env t (v, false) cs).2 = false := by
+  induction cs generalizing v with
+  | nil => rfl
+  | cons c cs ih =>
+    simp only [foldTO_cons]
+    by_cases h : tgt c = some t <;> simp [h, ih]
+
+theorem allOk_of_foldTO (env : Env) (cs : List Cmd) :
+    ∀ (s : St), (∀ c ∈ cs, (tgt c).isSome = true) →
+      (∀ t, (foldTO env t (look s t, true) cs).2 = true) → allOk env s cs = true := by
+  induction cs with
+  | nil => intro s _ _; rfl
+  | cons c cs ih =>
+    intro s htg hok
+    have hc := htg c (by simp)
+    obtain ⟨t0, ht0⟩ := Option.isSome_iff_exists.mp hc
+    have h0 := hok t0
+    simp only [foldTO_cons, ht0, if_true, Bool.true_and] at h0
+    have hloc : (loc env c (look s t0)).2 = true := by
+      cases hb : (loc env c (look s t0)).2 with
+      | true => rfl
+      | false => rw [hb, foldTO_false] at h0; exact absurd h0 (by simp)
+    simp only [allOk, Bool.and_eq_true]
+    refine ⟨by rw [dispatch_result, ht0]; exact hloc, ?_⟩
+    apply ih _ (fun c' hc' => htg c' (by simp [hc']))
+    intro t
+    rw [look_dispatch, ht0]
+    by_cases e : t = t0
+    · subst e; simp only [if_true]; rw [hloc] at h0; exact h0
+    · have hne : ¬ (some t0 = some t) := by intro h; injection h with h; exact e h.symm
+      have := hok t
+      simp only [foldTO_cons, ht0, hne, if_false] at this
+      simpa [hne] using this
+
+/-- well-formedness of one entry: the value sits under its own key, in the shape the verbs
+    of the code leave it -/
+def EntryOK (env : Env) : Target → Val → Prop
+  | .cluster id, .cluster c => c.id = id ∧ (∀ h, c.hc = some h → h.valid = true)
+  | .backends cid, .backends l =>
+      SortedB l ∧ (∀ b ∈ l, b.cluster = cid ∧ canon b.addr = b.addr) ∧
+      l.Pairwise (fun x y => x.id ≠ y.id ∨ x.addr ≠ y.addr)
+  | .httpL a, .hl l => canon l.addr = a
+  | .httpsL a, .hl l => canon l.addr = a
+  | .tcpL a, .tl l => canon l.addr = a
+  | .udpL a, .ul l => canon l.addr = a
+  | .httpF k, .front f => fkey (toReq f) = k ∧ toFrontend (toReq f) = some f
+  | .httpsF k, .front f => fkey (toReq f) = k ∧ toFrontend (toReq f) = some f
+  | .tcpF cid, .tfs l => (∀ f ∈ l, f.cluster = cid ∧ canon f.addr = f.addr) ∧ l.Nodup
+  | .udpF cid, .tfs l => (∀ f ∈ l, f.cluster = cid ∧ canon f.addr = f.addr) ∧ l.Nodup
+  | .certs a, .certs m =>
+      canon a = a ∧ m.Pairwise (fun x y => x.1 < y.1) ∧
+      ∀ p ∈ m, env.fp p.2.pem = some p.1 ∧ resolveNames env p.2 = some p.2
+  | _, _ => False
+
+theorem genEntry_tgt (env : Env) (t : Target) (v : Val) (h : EntryOK env t v) :
+    ∀ c ∈ genEntry (t, v), tgt c = some t := by
+  cases t <;> cases v <;> simp only [EntryOK] at h <;>
+    simp only [genEntry, genListener, certCmds, List.mem_cons, List.mem_map, List.not_mem_nil] <;>
+    intro c hc
+  all_goals first
+    | (rcases hc with rfl | hc
+       · simp [tgt, h]
+       · split at hc
+         · simp at hc; subst hc; simp [tgt, listenerTarget, h]
+         · simp at hc)
+    | (simp at hc; subst hc; simp [tgt, h])
+    | (obtain ⟨x, hx, rfl⟩ := hc; simp [tgt, h, (h.2.1 x hx).1])
+    | (obtain ⟨x, hx, rfl⟩ := hc; simp [tgt, h, (h.1 x hx).1])
+    | (obtain ⟨x, hx, rfl⟩ := hc; simp [tgt, h.1])
+    | skip
+
+
+theorem certInsertSorted_append (fp : Nat) (c : Cert) (m : List (Nat × Cert)) (h : ∀ p ∈ m, p.1 < fp) :
+    certInsertSorted fp c m = m ++ [(fp, c)] := by
+  induction m with
+  | nil => rfl
+  | cons x t ih =>
+    obtain ⟨k, v⟩ := x
+    have hk : k < fp := h (k, v) (by simp)
+    have h1 : ¬ fp < k := by omega
+    have h2 : ¬ fp = k := by omega
+    simp [certInsertSorted, h1, h2, ih (fun p hp => h p (by simp [hp]))]
+
+theorem certGet_none_of_lt (m : List (Nat × Cert)) (fp : Nat) (h : ∀ p ∈ m, p.1 < fp) : certGet m fp = none := by
+  have : m.find? (fun p => decide (p.1 = fp)) = none := by
+    apply List.find?_eq_none.mpr
+    intro p hp; have := h p hp; simp; omega
+  simp [certGet, this]
+
+theorem foldTO_certs (env : Env) (a : Nat) (ha : canon a = a) (suf : List (Nat × Cert)) :
+    ∀ (pre : List (Nat × Cert)) (v : Option Val), certsOf v = pre → suf ≠ [] →
+      (pre ++ suf).Pairwise (fun x y => x.1 < y.1) →
+      (∀ p ∈ suf, env.fp p.2.pem = some p.1 ∧ resolveNames env p.2 = some p.2) →
+      foldTO env (.certs a) (v, true) (certCmds a suf) = (some (.certs (pre ++ suf)), true) := by
+  induction suf with
+  | nil => intro pre v _ hne; exact absurd rfl hne
+  | cons p rest ih =>
+    intro pre v hv _ hs hok
+    have hp := hok p (by simp)
+    have hlt : ∀ q ∈ pre, q.1 < p.1 := by
+      intro q hq
+      have := List.pairwise_append.mp hs
+      exact this.2.2 q hq p (by simp)
+    have step : loc env (.addCert a p.2) v = (some (.certs (pre ++ [p])), true) := by
+      simp only [loc, hp.1, hp.2, hv, certGet_none_of_lt pre p.1 hlt, certSet,
+        certInsertSorted_append p.1 p.2 pre hlt]
+      simp
+    simp only [certCmds, List.map_cons, foldTO_cons, tgt, ha, if_true, step, Bool.and_true]
+    cases rest with
+    | nil => simp [foldTO_nil]
+    | cons q rest' =>
+      have := ih (pre ++ [p]) (some (.certs (pre ++ [p]))) rfl (by simp)
+        (by simpa [List.append_assoc] using hs) (fun x hx => hok x (by simp [hx]))
+      simpa [certCmds, List.append_assoc] using this
+
+theorem addTcpFront_fold (suf : List TcpFront) :
+    ∀ (pre : List TcpFront) (v : Option Val), tfsOf v = pre → suf ≠ [] → (pre ++ suf).Nodup →
+      (∀ f ∈ suf, canon f.addr = f.addr) →
+      suf.foldl (fun (p : Option Val × Bool) f => ((addTcpFront f p.1).1, p.2 && (addTcpFront f p.1).2)) (v, true)
+        = (some (.tfs (pre ++ suf)), true) := by
+  induction suf with
+  | nil => intro pre v _ hne; exact absurd rfl hne
+  | cons f rest ih =>
+    intro pre v hv _ hnd hc
+    have hf : ({ f with addr := canon f.addr } : TcpFront) = f := by
+      have := hc f (by simp); cases f; simp_all
+    have hnot : f ∉ pre := by
+      have := List.nodup_append.mp hnd
+      intro hin; exact this.2.2 f hin f (by simp) rfl
+    have step : addTcpFront f v = (some (.tfs (pre ++ [f])), true) := by
+      simp [addTcpFront, hv, hf, hnot]
+    simp only [List.foldl_cons, step, Bool.and_true]
+    cases rest with
+    | nil => simp
+    | cons g rest' =>
+      have := ih (pre ++ [f]) (some (.tfs (pre ++ [f]))) rfl (by simp)
+        (by simpa [List.append_assoc] using hnd) (fun x hx => hc x (by simp [hx]))
+      simpa [List.append_assoc] using this
+
+theorem foldTO_tcpF (env : Env) (cid : Nat) (l : List TcpFront) (p : Option Val × Bool)
+    (h : ∀ f ∈ l, f.cluster = cid) :
+    foldTO env (.tcpF cid) p (l.map Cmd.addTcpF) =
+      l.foldl (fun (p : Option Val × Bool) f => ((addTcpFront f p.1).1, p.2 && (addTcpFront f p.1).2)) p := by
+  induction l generalizing p with
+  | nil => rfl
+  | cons f t ih =>
+    have := h f (by simp)
+    simp only [List.map_cons, foldTO_cons, tgt, this, if_true, List.foldl_cons, loc]
+    exact ih _ (fun x hx => h x (by simp [hx]))
+
+theorem foldTO_udpF (env : Env) (cid : Nat) (l : List TcpFront) (p : Option Val × Bool)
+    (h : ∀ f ∈ l, f.cluster = cid) :
+    foldTO env (.udpF cid) p (l.map Cmd.addUdpF) =
+      l.foldl (fun (p : Option Val × Bool) f => ((addTcpFront f p.1).1, p.2 && (addTcpFront f p.1).2)) p := by
+  induction l generalizing p with
+  | nil => rfl
+  | cons f t ih =>
+    have := h f (by simp)
+    simp only [List.map_cons, foldTO_cons, tgt, this, if_true, List.foldl_cons, loc]
+    exact ih _ (fun x hx => h x (by simp [hx]))
+
+theorem foldTO_backends (env : Env) (cid : Nat) (suf : List Backend) :
+    ∀ (pre : List Backend) (v : Option Val), backendsOf v = pre → suf ≠ [] → SortedB (pre ++ suf) →
+      (pre ++ suf).Pairwise (fun x y => x.id ≠ y.id ∨ x.addr ≠ y.addr) →
+      (∀ b ∈ suf, b.cluster = cid ∧ canon b.addr = b.addr) →
+      foldTO env (.backends cid) (v, true) (suf.map Cmd.addBackend) = (some (.backends (pre ++ suf)), true) := by
+  induction suf with
+  | nil => intro pre v _ hne; exact absurd rfl hne
+  | cons b rest ih =>
+    intro pre v hv _ hs hd hc
+    have hb := hc b (by simp)
+    have hb' : ({ b with addr := canon b.addr } : Backend) = b := by cases b; simp_all
+    have hkeep : pre.filter (fun x => decide (x.id ≠ b.id ∨ x.addr ≠ b.addr)) = pre := by
+      apply List.filter_eq_self.mpr
+      intro x hx
+      have := (List.pairwise_append.mp hd).2.2 x hx b (by simp)
+      simpa using this
+    have hsorted : SortedB (pre ++ [b]) := by
+      refine List.Pairwise.sublist ?_ hs
+      exact List.Sublist.append_left (by simp) pre
+    have step : loc env (.addBackend b) v = (some (.backends (pre ++ [b])), true) := by
+      simp only [loc, hb', hv]
+      rw [hb.2, hkeep, sortB_of_sorted _ hsorted]
+    simp only [List.map_cons, foldTO_cons, tgt, hb.1, if_true, step, Bool.and_true]
+    cases rest with
+    | nil => simp [foldTO_nil]
+    | cons g rest' =>
+      have := ih (pre ++ [b]) (some (.backends (pre ++ [b]))) rfl (by simp)
+        (by simpa [List.append_assoc] using hs) (by simpa [List.append_assoc] using hd)
+        (fun x hx => hc x (by simp [hx]))
+      simpa [List.append_assoc] using this
+
+theorem hl_active_eta (l : HttpL) (h : l.active = true) : ({ l with active := true } : HttpL) = l := by
+  cases l; simp_all
+theorem tl_active_eta (l : TcpL) (h : l.active = true) : ({ l with active := true } : TcpL) = l := by
+  cases l; simp_all
+theorem ul_active_eta (l : UdpL) (h : l.active = true) : ({ l with active := true } : UdpL) = l := by
+  cases l; simp_all
+
+/-- replaying the requests generated for one well-formed entry, on an absent entry, is accepted
+    command by command and rebuilds the entry (up to an empty bucket) -/
+theorem entry_roundtrip (env : Env) (t : Target) (v : Val) (h : EntryOK env t v) :
+    ∃ v', foldTO env t (none, true) (genEntry (t, v)) = (v', true) ∧ norm v' = norm (some v) := by
+  cases t <;> cases v <;> simp only [EntryOK] at h <;> try (exact False.elim h)
+  case cluster.cluster id c =>
+    refine ⟨some (.cluster c), ?_, rfl⟩
+    simp only [genEntry, foldTO_cons, foldTO_nil, tgt, h.1, if_true, loc]
+    cases hh : c.hc with
+    | none => rfl
+    | some hc => simp [h.2 hc hh]
+  case backends.backends cid l =>
+    cases l with
+    | nil => exact ⟨none, rfl, rfl⟩
+    | cons b t =>
+      have := foldTO_backends env cid (b :: t) [] none rfl (by simp) (by simpa using h.1)
+        (by simpa using h.2.2) h.2.1
+      exact ⟨_, by simpa [genEntry] using this, rfl⟩
+  case httpL.hl a l =>
+    refine ⟨some (.hl l), ?_, rfl⟩
+    simp only [genEntry, genListener, foldTO_cons, tgt, h, if_true, loc]
+    by_cases ha : l.active = true
+    · simp [ha, foldTO_cons, foldTO_nil, tgt, listenerTarget, h, loc, setActive, hl_active_eta l ha]
+    · simp [ha, foldTO_nil]
+  case httpsL.hl a l =>
+    refine ⟨some (.hl l), ?_, rfl⟩
+    simp only [genEntry, genListener, foldTO_cons, tgt, h, if_true, loc]
+    by_cases ha : l.active = true
+    · simp [ha, foldTO_cons, foldTO_nil, tgt, listenerTarget, h, loc, setActive, hl_active_eta l ha]
+    · simp [ha, foldTO_nil]
+  case tcpL.tl a l =>
+    refine ⟨some (.tl l), ?_, rfl⟩
+    simp only [genEntry, genListener, foldTO_cons, tgt, h, if_true, loc]
+    by_cases ha : l.active = true
+    · simp [ha, foldTO_cons, foldTO_nil, tgt, listenerTarget, h, loc, setActive, tl_active_eta l ha]
+    · simp [ha, foldTO_nil]
+  case udpL.ul a l =>
+    refine ⟨some (.ul l), ?_, rfl⟩
+    simp only [genEntry, genListener, foldTO_cons, tgt, h, if_true, loc]
+    by_cases ha : l.active = true
+    · simp [ha, foldTO_cons, foldTO_nil, tgt, listenerTarget, h, loc, setActive, ul_active_eta l ha]
+    · simp [ha, foldTO_nil]
+  case httpF.front k f =>
+    exact ⟨some (.front f), by simp [genEntry, foldTO_cons, foldTO_nil, tgt, h.1, loc, addFront, h.2], rfl⟩
+  case httpsF.front k f =>
+    exact ⟨some (.front f), by simp [genEntry, foldTO_cons, foldTO_nil, tgt, h.1, loc, addFront, h.2], rfl⟩
+  case tcpF.tfs cid l =>
+    cases l with
+    | nil => exact ⟨none, rfl, rfl⟩
+    | cons f t =>
+      refine ⟨some (.tfs (f :: t)), ?_, rfl⟩
+      simp only [genEntry]
+      rw [foldTO_tcpF env cid _ _ (fun x hx => (h.1 x hx).1),
+        addTcpFront_fold (f :: t) [] none rfl (by simp) (by simpa using h.2) (fun x hx => (h.1 x hx).2)]
+      rfl
+  case udpF.tfs cid l =>
+    cases l with
+    | nil => exact ⟨none, rfl, rfl⟩
+    | cons f t =>
+      refine ⟨some (.tfs (f :: t)), ?_, rfl⟩
+      simp only [genEntry]
+      rw [foldTO_udpF env cid _ _ (fun x hx => (h.1 x hx).1),
+        addTcpFront_fold (f :: t) [] none rfl (by simp) (by simpa using h.2) (fun x hx => (h.1 x hx).2)]
+      rfl
+  case certs.certs a m =>
+    cases m with
+    | nil => exact ⟨none, rfl, rfl⟩
+    | cons p t =>
+      refine ⟨some (.certs (p :: t)), ?_, rfl⟩
+      simp only [genEntry]
+      rw [foldTO_certs env a h.1 (p :: t) [] none rfl (by simp) (by simpa using h.2.1) h.2.2]
+      rfl
+
+/-- well-formed state: one binding per key, every entry well-formed -/
+def WF (env : Env) (s : St) : Prop := (s.map (·.1)).Nodup ∧ ∀ e ∈ s, EntryOK env e.1 e.2
+
+theorem foldTO_entries (env : Env) (t : Target) (L : List (Target × Val)) :
+    ∀ (p0 : Option Val × Bool), (L.map (·.1)).Nodup → (∀ e ∈ L, EntryOK env e.1 e.2) →
+      foldTO env t p0 (L.flatMap genEntry) =
+        match L.find? (fun e => e.1 = t) with
+        | some e => foldTO env t p0 (genEntry e)
+        | none => p0 := by
+  induction L with
+  | nil => intro p0 _ _; rfl
+  | cons e L ih =>
+    intro p0 hnd hok
+    have hnd' : e.1 ∉ L.map (·.1) ∧ (L.map (·.1)).Nodup := List.nodup_cons.mp hnd
+    have hokL : ∀ e' ∈ L, EntryOK env e'.1 e'.2 := fun e' he' => hok e' (by simp [he'])
+    simp only [List.flatMap_cons, foldTO_append]
+    by_cases he : e.1 = t
+    · have hskip : foldTO env t (foldTO env t p0 (genEntry e)) (L.flatMap genEntry) = foldTO env t p0 (genEntry e) := by
+        apply foldTO_flatMap_skip
+        intro e' he' c hc
+        have := genEntry_tgt env e'.1 e'.2 (hokL e' he') c hc
+        rw [this]
+        intro h; injection h with h
+        apply hnd'.1
+        rw [he, ← h]
+        exact List.mem_map.mpr ⟨e', he', rfl⟩
+      simp [List.find?_cons, he, hskip]
+    · have hskip : foldTO env t p0 (genEntry e) = p0 := by
+        apply foldTO_skip
+        intro c hc
+        have := genEntry_tgt env e.1 e.2 (hok e (by simp)) c hc
+        rw [this]; intro h; injection h with h; exact he h
+      simp only [hskip, List.find?_cons, he, decide_false]
+      exact ih p0 hnd'.2 hokL
+
+theorem find_section (s : St) (t : Target) (i : Nat) :
+    (sectionEntries s i).find? (fun e => e.1 = t) =
+      if i = sectionOf t then s.find? (fun e => e.1 = t) else none := by
+  unfold sectionEntries
+  induction s with
+  | nil => simp
+  | cons e s ih =>
+    by_cases hi : sectionOf e.1 = i
+    · by_cases he : e.1 = t
+      · subst he; subst hi; simp [List.filter_cons]
+      · subst hi; simp only [List.filter_cons, decide_true, if_true, List.find?_cons, he, decide_false]; exact ih
+    · by_cases he : e.1 = t
+      · subst he
+        have : ¬ i = sectionOf e.1 := fun h => hi h.symm
+        simp only [List.filter_cons, hi, decide_false, List.find?_cons, decide_true, this, if_false]
+        simpa [this] using ih
+      · simp only [List.filter_cons, hi, decide_false, List.find?_cons, he]; exact ih
+
+theorem foldTO_section (env : Env) (s : St) (hs : WF env s) (t : Target) (i : Nat) (p0 : Option Val × Bool) :
+    foldTO env t p0 ((sectionEntries s i).flatMap genEntry) =
+      if i = sectionOf t then
+        (match s.find? (fun e => e.1 = t) with
+         | some e => foldTO env t p0 (genEntry e)
+         | none => p0)
+      else p0 := by
+  have hsub : (sectionEntries s i).Sublist s := List.filter_sublist
+  rw [foldTO_entries env t _ p0 (List.Nodup.sublist (List.Sublist.map _ hsub) hs.1)
+    (fun e he => hs.2 e (hsub.subset he)), find_section]
+  by_cases hi : i = sectionOf t <;> simp [hi]
+
+theorem foldTO_generate (env : Env) (s : St) (hs : WF env s) (t : Target) :
+    foldTO env t (none, true) (generateRequests s) =
+      match s.find? (fun e => e.1 = t) with
+      | some e => foldTO env t (none, true) (genEntry e)
+      | none => (none, true) := by
+  have hr : List.range 11 = [0, 1, 2, 3, 4, 5, 6, 7, 8, 9, 10] := by decide
+  unfold generateRequests
+  rw [hr]
+  simp only [List.flatMap_cons, List.flatMap_nil, List.append_nil, foldTO_append, foldTO_section env s hs]
+  cases t <;> simp [sectionOf] <;> split <;> rfl
+
+theorem look_eq_find (s : St) (t : Target) :
+    look s t = (s.find? (fun e => e.1 = t)).map (·.2) := by
+  simp only [look, KMap.get?]
+  cases s.find? (fun p => decide (p.1 = t)) <;> rfl
+
+theorem generate_has_target (env : Env) (s : St) (hs : WF env s) :
+    ∀ c ∈ generateRequests s, (tgt c).isSome = true := by
+  intro c hc
+  unfold generateRequests at hc
+  rcases List.mem_flatMap.mp hc with ⟨i, _, hc⟩
+  rcases List.mem_flatMap.mp hc with ⟨e, he, hc⟩
+  have hes : e ∈ s := (List.mem_filter.mp he).1
+  rw [genEntry_tgt env e.1 e.2 (hs.2 e hes) c hc]
+  rfl
+
+theorem foldT_filter (env : Env) (t : Target) (v : Option Val) (cs : List Cmd) :
+    foldT env t v cs = foldT env t v (cs.filter (fun c => tgt c = some t)) := by
+  induction cs generalizing v with
+  | nil => rfl
+  | cons c cs ih =>
+    by_cases h : tgt c = some t
+    · simp only [foldT, List.foldl_cons, h, if_true, List.filter_cons, decide_true] at ih ⊢
+      exact ih _
+    · simp only [foldT, List.foldl_cons, h, if_false, List.filter_cons, decide_false] at ih ⊢
+      exact ih _
+
 end Sozu.State
